@@ -98,7 +98,9 @@ def _case(draw, tier):
                                      places=("assert", "var", "module", "lambda"), p_missing=0.3))
     xfail = [draw(st.sampled_from([None, None, None, "bare", "true", "false", "reason"])) for _ in prog["tests"]]
     return {"prog": prog, "cfg": draw(_config()), "xfail": xfail,
-            "ext": draw(st.sampled_from(["data-a", "other text", ""])) if draw(st.booleans()) else None}
+            "ext": draw(st.sampled_from(["data-a", "other text", ""])) if draw(st.booleans()) else None,
+            # the whole module marked xfail through `pytestmark` (a marker that is not on the function itself)
+            "module_xfail": draw(st.sampled_from([False] * 7 + [True]))}
 
 
 def signature(case):
@@ -120,6 +122,8 @@ def build_project(case):
             out.append(XFAIL_DECO[case["xfail"][int(m.group(1))]])
         out.append(ln)
     src = "import pytest\n" + "\n".join(out)
+    if case.get("module_xfail"):
+        src = src.replace("LOG = []\n", "LOG = []\npytestmark = pytest.mark.xfail(reason='whole module')\n", 1)
     n_sites = len(order)
     if case["ext"] is not None:
         src = src.replace("from inline_snapshot import snapshot", "from inline_snapshot import snapshot, outsource", 1)
@@ -207,6 +211,15 @@ def check(case):
     if res["kind"] == "disabled":
         unchanged("disabled:" + res["reason"])
         return {"nontrivial": True, "classes": classes, "sample": {"args": args, "env": env}}
+    if case.get("module_xfail") and not any(s.get("place") == "module" for s in case["prog"]["sites"]):
+        # every test is xfail: nothing inside them may be written, whatever is approved
+        if after.get("test_a.py") != before.get("test_a.py"):
+            raise Violation("xfail-module-rewritten",
+                            f"{ctx}\nall tests are marked xfail (pytestmark) but the test file changed\n--- before\n{src}\n"
+                            f"--- after\n{after_all.get('test_a.py', b'').decode()}\n{r.stdout[-1500:]}")
+        return {"nontrivial": True, "classes": classes + ["module-xfail"], "sample": {"args": args, "env": env}}
+    if case.get("module_xfail"):
+        return {"nontrivial": False, "classes": classes + ["module-xfail-skipped"]}
     F = set(res["approved"])
     asked = PROMPT.findall(r.stdout)
     if res["review"]:
